@@ -167,10 +167,12 @@ func Flatten(gs []Group, names ...string) []world.Op {
 func FullSeeds() map[string][]world.Op {
 	return map[string][]world.Op{
 		"empty": nil,
-		"catalog+session": {RegNode(FN1), RegNode(FN2), RegService(FN1, FWeb), RegCheck(FN1, FC1), RegCheck(FN1, FSC1), RegCheck(FN1, FSessCk), FS1.Create(), FS2.Create(),
+		"catalog+session": {RegNode(FN1), RegService(FN1, SvcSpec{Name: "old", Port: 1}), DeregService("n1", "old", ""), // an early service extinction
+			RegNode(FN2), RegService(FN1, FWeb), RegCheck(FN1, FC1), RegCheck(FN1, FSC1), RegCheck(FN1, FSessCk), FS1.Create(), FS2.Create(),
 			KVSpec{Verb: api.KVLock, Key: "a", Val: "x", Sess: "s1"}.Op(), KVSpec{Verb: api.KVLock, Key: "a/b", Val: "y", Sess: "s2"}.Op(), PQSet("q1", "q-one", "s1", "web"),
 			KVSpec{Verb: api.KVSet, Key: "c", Val: "z"}.Op(), KVSpec{Verb: api.KVDelete, Key: "c"}.Op(), CoordinateUpdate("n1", 0.5)},
-		"mesh": {EnableVIPs(), EnableTermGWVIPs(), RegNode(FN1), RegNode(FN2), RegService(FN1, FWeb), RegService(FN2, FWeb2), RegService(FN1, FProxy), RegService(FN2, FProxy2), RegService(FN1, FDB),
+		"mesh": {EnableVIPs(), EnableTermGWVIPs(), RegNode(FN1), RegService(FN1, SvcSpec{Name: "old", Port: 1}), DeregService("n1", "old", ""), // an early service extinction
+			RegNode(FN2), RegService(FN1, FWeb), RegService(FN2, FWeb2), RegService(FN1, FProxy), RegService(FN2, FProxy2), RegService(FN1, FDB),
 			Terminating("tgw", "*").Upsert(), Ingress("igw", "tcp", "web").Upsert(), RegService(FN1, FTGW), RegService(FN2, FIGW),
 			SvcDefaults("web", "http").Upsert(), ProxyDefaults("http").Upsert(), Resolver("web", ResolverOpt{Subsets: []string{"v1", "v2"}, DefaultSubset: "v1"}).Upsert(),
 			SvcDefaultsDest("ext", "example.com").Upsert(), ManualVIPs("web", "10.10.10.10")},
